@@ -11,19 +11,19 @@ TRUSTED = ['Lean 4.33 kernel + Mathlib', 'axioms: propext, Classical.choice, Quo
 KEYS = ('TSTART', 'TSTOP', 'ONTIME', 'LIVETIME', 'DEADC')
 
 
-def build_file(g, d, two_gti=True, long_=False):
+def build_file(g, d, two_gti=True, long_=False, t0=10000.):
     """Synthetic file through the package writer with real LIVETIME column and keywords, two GTIs with a gap, PHASE column.
     long_: an observation whose summed LIVETIME column exceeds 2^31 microseconds (no single entry does)."""
     import evfile
     from astropy.io import fits
-    gtis = [(10000., 10800.), (11200., 12000.)] if two_gti else [(10000., 12000.)]
+    gtis = [(t0, t0 + 800.), (t0 + 1200., t0 + 2000.)] if two_gti else [(t0, t0 + 2000.)]
     n = int(g.integers(300, 900))
     if long_:
-        gtis = [(10000., 13200.), (13700., 16400.)]
+        gtis = [(t0, t0 + 3200.), (t0 + 3700., t0 + 6400.)]
         n = int(g.integers(1500, 2500))
     t = numpy.sort(numpy.concatenate([g.uniform(a, b, n // len(gtis)) for a, b in gtis]))
     path = os.path.join(d, 'kw%d.fits' % int(g.integers(0, 10 ** 9)))
-    evfile.write_event_file(path, t, gtis=gtis, tstart=10000., tstop=gtis[-1][1], deadtime=float(g.choice([0.00108, 0.05, 0.3])), tag=numpy.arange(1, len(t) + 1))
+    evfile.write_event_file(path, t, gtis=gtis, tstart=t0, tstop=gtis[-1][1], deadtime=float(g.choice([0.00108, 0.05, 0.3])), tag=numpy.arange(1, len(t) + 1))
     with fits.open(path) as h:
         m = len(h['EVENTS'].data)
         phase = g.uniform(0, 1, m).astype(numpy.float32)
@@ -117,6 +117,14 @@ def gen_kw(g, t, gtis, tstart=None, tstop=None):
             a, b = sorted(g.uniform(gtis[0][1] + 1., gtis[1][0] - 1., 2))
         else:
             a, b = sorted(g.uniform(t.min(), t.max(), 2))
+        if t.min() < 0. < t.max() and g.uniform() < 0.5:
+            # an observation that straddles the mission reference time: a bound exactly at MET 0.0 is a bound like any other
+            if g.uniform() < 0.5:
+                a = 0.0
+                b = b if b > 0. else float(g.uniform(0., t.max()))
+            else:
+                b = 0.0
+                a = a if a < 0. else float(g.uniform(t.min(), 0.))
         side = g.uniform()
         if side < 0.4:
             kw['tmin'], kw['tmax'] = float(a), float(b)
@@ -187,9 +195,9 @@ def run_cases(chk, n, tagname, budget=1):
     with scratch() as d:
         drv = Driver()
         jobs = []
-        files = [build_file(g, d, True), build_file(g, d, False), build_file(g, d, True, long_=True)]
+        files = [build_file(g, d, True), build_file(g, d, False), build_file(g, d, True, long_=True), build_file(g, d, bool(g.integers(0, 2)), t0=-float(g.choice([700., 1000., 1500.])))]
         for i in range(n * budget):
-            path, gtis = files[i % 3]
+            path, gtis = files[i % 4]
             o = one_step(chk, g, drv, jobs, path, gtis, 0)
             # a second selection on the output of the first (multi-step history)
             if o is not None and i % 4 == 0:
